@@ -159,15 +159,28 @@ func VerifC04WorkConn() {
 	ctl, _ := zzControl(svr, "r1", 1)
 	wc := &zzConn{name: "work"}
 	m := &msg.NewWorkConn{RunID: []string{"r1", "other", ""}[zzverif.Choice("runID", 3)], PrivilegeKey: "k"}
+	// the session's pool may already be full: then the connection is not kept, and the caller is told
+	// so (it closes what was refused)
+	full := zzverif.Bool("poolFull")
+	had := 0
+	if full {
+		for len(ctl.workConnCh) < cap(ctl.workConnCh) {
+			ctl.workConnCh <- &zzConn{name: "older"}
+		}
+		had = len(ctl.workConnCh)
+	}
 	err := svr.RegisterWorkConn(wc, m)
-	pooled := len(ctl.workConnCh)
+	pooled := len(ctl.workConnCh) - had
 	if err == nil {
 		zzverif.Assert(m.RunID == "r1" && ver.workOK && plug.outcome <= 1, "C04.work.pooled-only-if-known-and-verified")
+		zzverif.Assert(!full, "C11.work.connection-that-is-not-kept-is-reported-to-the-caller")
 		zzverif.Assert(pooled == 1, "C04.work.pooled-once")
 		zzverif.Reach("C04.work.pooled")
 	} else {
 		zzverif.Assert(pooled == 0, "C04.work.refused-not-pooled")
-		if m.RunID == "r1" {
+		if full && m.RunID == "r1" && ver.workOK && plug.outcome <= 1 {
+			zzverif.Reach("C11.work.pool-full")
+		} else if m.RunID == "r1" {
 			zzverif.Assert(len(wc.written) == 1, "C04.work.refusal-announced")
 			if len(wc.written) == 1 {
 				s, ok := wc.written[0].(*msg.StartWorkConn)
